@@ -253,6 +253,7 @@ type PXConfig struct {
 	MaxDepth     int
 	MaxVisits    int
 	MaxPaths     int
+	LocalWrites  bool                       // writes into path-local buffers are (also) reported as write events
 	MaxIndex     int                        // paths that touch element MaxIndex (or beyond) of a slice of unknown contents are not explored (0: no bound)
 	Opaque       func(f *ssa.Function) bool // do not inline; record a call event
 	SkipErrEdges bool                       // do not follow the failure edge of an error test
@@ -1627,6 +1628,9 @@ func (r *pxRun) call(st *pxState, fr *pxFrame, x *ssa.Call, k func(*pxState, *px
 		if s := sinkOf(x); s != nil {
 			if recv.Op == "alloc" && isBufferPtr(recv.Typ) {
 				st.bufAppend(recv, args[0])
+				if r.cfg.LocalWrites {
+					st.emit(Ev{Kind: "write", Name: cc.Method.Name(), In: x, Within: fr.fn, Writer: recv, Segs: termTemplate(args[0]), Data: args[0], Depth: fr.depth})
+				}
 				return bind(&T{Op: "tuple", A: []*T{{Op: "len", A: []*T{args[0]}, Typ: types.Typ[types.Int]}, {Op: "const", Nil: true, Typ: errorType()}}, Typ: resTyp})
 			}
 			res := newRes("invoke."+cc.Method.Name(), append([]*T{recv}, args...), true)
@@ -1687,6 +1691,9 @@ func (r *pxRun) call(st *pxState, fr *pxFrame, x *ssa.Call, k func(*pxState, *px
 			if args[wi].Op == "alloc" && isBufferPtr(args[wi].Typ) {
 				// a private in-memory buffer: its content is tracked, the write cannot fail
 				st.bufAppend(args[wi], data)
+				if r.cfg.LocalWrites {
+					st.emit(Ev{Kind: "write", Name: name, In: x, Within: fr.fn, Writer: args[wi], Segs: termTemplate(data), Data: data, Depth: fr.depth})
+				}
 				if tt, ok := resTyp.(*types.Tuple); ok && tt.Len() == 2 {
 					return bind(&T{Op: "tuple", A: []*T{{Op: "len", A: []*T{data}, Typ: types.Typ[types.Int]}, {Op: "const", Nil: true, Typ: errorType()}}, Typ: resTyp})
 				}
